@@ -12,6 +12,7 @@ import (
 	"reflect"
 	"strings"
 	"sync"
+	"sync/atomic"
 	"testing"
 	"time"
 
@@ -96,8 +97,8 @@ type vfH2Stream struct {
 	Name      string // "" = no test name header
 	ReqMsgs   [][]byte
 	RespMsgs  [][]byte
-	Cont      bool // split header blocks into HEADERS + CONTINUATION
-	ReqTrail  bool // request trailers
+	Cont      bool   // split header blocks into HEADERS + CONTINUATION
+	ReqTrail  bool   // request trailers
 	End       string // trailers | data-end | rst-server | rst-client | rst-before-headers | refused-retry | goaway
 	RstCode   http2.ErrCode
 	RetryOf   *vfH2Stream
@@ -202,6 +203,9 @@ type vfDirEnc struct {
 	out  bytes.Buffer
 }
 
+// vfEmptyHeaderFrames counts header blocks that were written with an empty HEADERS or CONTINUATION frame.
+var vfEmptyHeaderFrames atomic.Int64
+
 func vfNewDirEnc() *vfDirEnc {
 	d := &vfDirEnc{}
 	d.enc = hpack.NewEncoder(&d.hbuf)
@@ -220,6 +224,22 @@ func (d *vfDirEnc) take() []byte { b := append([]byte(nil), d.out.Bytes()...); d
 func (d *vfDirEnc) headers(r *verifkit.Rand, id uint32, block []byte, endStream, cont bool) {
 	if !cont || len(block) < 2 {
 		_ = d.fr.WriteHeaders(http2.HeadersFrameParam{StreamID: id, BlockFragment: block, EndHeaders: true, EndStream: endStream})
+		return
+	}
+	// legal but unusual: a header block opened by an empty HEADERS frame, or closed by an empty CONTINUATION
+	// (an encoder whose block is an exact multiple of its frame size) - the block itself is the same
+	switch r.Intn(6) {
+	case 0:
+		_ = d.fr.WriteHeaders(http2.HeadersFrameParam{StreamID: id, BlockFragment: nil, EndHeaders: false, EndStream: endStream})
+		a := 1 + r.Intn(len(block)-1)
+		_ = d.fr.WriteContinuation(id, false, block[:a])
+		_ = d.fr.WriteContinuation(id, true, block[a:])
+		vfEmptyHeaderFrames.Add(1)
+		return
+	case 1:
+		_ = d.fr.WriteHeaders(http2.HeadersFrameParam{StreamID: id, BlockFragment: block, EndHeaders: false, EndStream: endStream})
+		_ = d.fr.WriteContinuation(id, true, nil)
+		vfEmptyHeaderFrames.Add(1)
 		return
 	}
 	// HEADERS + 1..2 CONTINUATION frames
@@ -821,6 +841,8 @@ func TestVerifC15Exchanges(t *testing.T) {
 		}
 	}
 	rep.Sample(map[string]any{"streams": "1: named, HEADERS+CONTINUATION, 2 request messages cut across 3 DATA frames, response trailers; 3: refused then retried as 5", "expect": "one trace for stream 1 with its own headers; one trace (of stream 5) for the retried name"})
+	rep.Count("header_blocks_with_an_empty_headers_or_continuation_frame", int(vfEmptyHeaderFrames.Load()))
+	rep.RequireMin("header_blocks_with_an_empty_headers_or_continuation_frame", 20)
 	for _, k := range []string{"stream:trailers", "stream:rst-server", "stream:rst-client", "stream:rst-client-after-end", "stream:rst-before-headers", "stream:retry", "stream:goaway", "scripts_continuation"} {
 		rep.RequireMin(k, 10)
 	}
@@ -1197,7 +1219,6 @@ func vfOrderFault(r *verifkit.Rand) [2][]byte {
 	return out
 }
 
-
 // TestVerifC15RetryTimer: the hold-back of a refused stream is a real timer;
 // drive it with real (generously spaced) delays.
 func TestVerifC15RetryTimer(t *testing.T) {
@@ -1355,7 +1376,6 @@ func TestVerifC15RetryTimer(t *testing.T) {
 	rep.RequireMin("timer_scenarios_decided", 2)
 }
 
-
 // ---------------------------------------------------------------- several connections of one listener
 
 type vfFakeListener struct {
@@ -1494,7 +1514,6 @@ func TestVerifC15Listener(t *testing.T) {
 	rep.RequireMin("listener_streams_ok", 300)
 	rep.RequireMin("pairs_with_a_retry_on_the_other_connection", 20)
 }
-
 
 // vfWriteData writes a DATA frame, now and then PADDED (RFC 9113 6.1): any pad length incl. 0, also when the
 // frame carries no data at all (padding-only frames, e.g. an END_STREAM frame that hides being empty).
